@@ -83,7 +83,7 @@ let () =
         let ((a, log), ok) = deploy crc cyid list_of info_of dinfo_of !srcs !arts in
         arts := a;
         List.iter print_entry log;
-        Printf.printf "ok %d\nend\n" (b ok);
+        Printf.printf "ok %d\nend\n%!" (b ok);
         srcs := []
       | _ -> print_endline "BADLINE"
     done
